@@ -347,6 +347,22 @@ def run(ctx, report):
              ('wildcard, unbound', ('x', 'a', ['a'], {}), 'success', {'a': 'x'}),
              ('wildcard, bound to the same', ('x', 'a', ['a'], {'a': 'x'}), 'success', {'a': 'x'}),
              ('wildcard, bound to another', ('x', 'a', ['a'], {'a': 'y'}), 'failure', {'a': 'y'})]
+    # ... and the whole product (expression leaf x pattern leaf x earlier bindings): the expression may contain the wildcard identifier itself
+    seen_cases = set((c_[1][0], c_[1][1], tuple(sorted(c_[1][3].items()))) for c_ in cases)
+    for e_ in ('x', 'y', 'a'):
+        for v_ in ('x', 'a'):
+            for res_ in ({}, {'a': 'x'}, {'a': 'y'}, {'a': 'a'}):
+                if (e_, v_, tuple(sorted(res_.items()))) in seen_cases:
+                    continue
+                if v_ != 'a':
+                    want, want_res = ('success', dict(res_)) if e_ == v_ else ('failure', dict(res_))
+                elif 'a' in res_ and res_['a'] != e_:
+                    want, want_res = 'failure', dict(res_)
+                else:
+                    want_res = dict(res_)
+                    want_res['a'] = e_
+                    want = 'success'
+                cases.append(('expression leaf %s, pattern leaf %s%s, bindings %s' % (e_, v_, ' (wildcard)' if v_ == 'a' else '', res_ or 'none'), (e_, v_, ['a'], res_), want, want_res))
     for label, (e_, v_, tks_, res_), want, want_res in cases:
         res_obj = dict(res_)
         try:
@@ -381,6 +397,7 @@ def run(ctx, report):
 
 
 MUTANTS = [
+    ('test-set-eq-shortcut-hoisted', 'miasmx/expression/expression.py', "    if not v in tks:\n        # (a successful match returns the bindings, even when there are none)\n        if e == v:\n            return result\n        return False\n", "    if e == v:\n        return result\n    if not v in tks:\n        return False\n", 'C16.D2'),
     ('aff-getr-src-only', 'miasmx/expression/expression.py', "            r = r.union(self.dst.arg.get_r(mem_read))\n", "", 'C16.D1'),
     ('mem-getr-no-segm', 'miasmx/expression/expression.py', "            if isinstance(self.segm, Expr):\n                r = r.union(self.segm.get_r(mem_read))\n            return r", "            return r", 'C16.D1'),
     ('cond-get_r-skip', 'miasmx/expression/expression.py',
